@@ -93,7 +93,9 @@ type Block struct {
 	Proof    base.SuffrageProof // nil when the block does not change the suffrage
 	Policy   base.NetworkPolicy // nil when the block does not change the policy
 	SufH     int
-	ExtraSts []base.State // filler states (large blocks, C21)
+	ExtraSts []base.State // filler states (large blocks, C21; block size classes of Database.tla)
+	XOps     int          // how many of Ops are the extra known operations of a size class
+	WCache   int          // state cache size of this block's block write database; 0: the DB's WriteCache, < 0: none
 }
 
 // Gen creates blocks and remembers every object it ever made, so that what a read
@@ -146,11 +148,18 @@ func (g *Gen) hash(tag string) util.Hash {
 // NewBlock builds the real objects of an abstract block. sufHeight < 0: no suffrage change.
 // filler: number of additional ordinary states (unique keys) to make the block large.
 func (g *Gen) NewBlock(h, gen int, keys []string, sufHeight int, filler int) (*Block, error) {
+	return g.NewBlockSized(h, gen, keys, sufHeight, filler, 0)
+}
+
+// NewBlockSized: a block of a size class of spec/Database.tla - filler states (one state record and one
+// in-state operation record each) and xops extra known operations (one record each) on top of the keyed
+// states (one state record, two in-state operation records each) and the two known operations every block has.
+func (g *Gen) NewBlockSized(h, gen int, keys []string, sufHeight int, filler, xops int) (*Block, error) {
 	g.mu.Lock()
 	defer g.mu.Unlock()
 
 	height := base.Height(int64(h))
-	b := &Block{H: h, G: gen, Keys: keys, ByKey: map[string]base.State{}, SufH: sufHeight}
+	b := &Block{H: h, G: gen, Keys: keys, ByKey: map[string]base.State{}, SufH: sufHeight, XOps: xops}
 
 	var sufst base.State
 
@@ -204,6 +213,9 @@ func (g *Gen) NewBlock(h, gen int, keys []string, sufHeight int, filler int) (*B
 	}
 
 	b.Ops = []util.Hash{g.hash("op"), g.hash("op")}
+	for i := 0; i < xops; i++ {
+		b.Ops = append(b.Ops, g.hash("xop"))
+	}
 
 	// states tree over the block's states (real fixed tree, the proof of the suffrage state comes from it)
 	var statestree util.Hash
